@@ -169,6 +169,12 @@ func collection(c *mon.Case, maxE int) {
 	for _, e := range extras {
 		idx.Remove(e)
 	}
+	// In every second case the first thing to touch the index with its pending updates is an iterator created
+	// at the end position (instead of Build): it has to see the built index like any other iterator.
+	var endIt *s2.ShapeIndexIterator
+	if c.I%2 == 0 {
+		endIt = s2.NewShapeIndexIterator(idx, s2.IteratorEnd)
+	}
 	idx.Build()
 	cells := cellList(idx.VerifCells())
 	multi := len(cells) > 1 || len(objs) > 1
@@ -307,6 +313,23 @@ func collection(c *mon.Case, maxE int) {
 			c.Violation("ShapeIndexIterator/backward-traversal/wrong-answer", fmt.Sprintf("backward traversal stopped %d cells before the first", k), baseDet())
 		}
 		c.Count("iterator.traversals", 1)
+		if endIt != nil {
+			k = len(cells)
+			if !endIt.Done() {
+				c.Violation("ShapeIndexIterator/created-at-end-on-pending-index/wrong-answer", "an iterator created with IteratorEnd is not Done", baseDet())
+			}
+			for endIt.Prev() {
+				k--
+				if k < 0 || endIt.CellID() != cells[k] {
+					c.Violation("ShapeIndexIterator/created-at-end-on-pending-index/wrong-answer", "backward traversal from an iterator created with IteratorEnd on an index with pending updates does not match the index's cell list", baseDet())
+					break
+				}
+			}
+			if k > 0 {
+				c.Violation("ShapeIndexIterator/created-at-end-on-pending-index/wrong-answer", fmt.Sprintf("backward traversal from an iterator created with IteratorEnd on an index with pending updates visited %d of %d cells", len(cells)-k, len(cells)), baseDet())
+			}
+			c.Count("iterator.created_at_end_before_build", 1)
+		}
 	}
 
 	// ---- iterator location ----
